@@ -9,6 +9,21 @@ NOTE = ("Trusted: Coq 8.16.1 kernel + vm_compute; extraction (ExtrOcamlBasic onl
         "Qt 5.15.8 semantics as modelled. No axioms: every theorem prints 'Closed under the global context'.")
 
 CHECKS = {
+ "C04": ("Theorems (Properties_C04.v, partial): the single hop of the convergence argument on the tied component models - the provider's "
+         "announcement is the response [PTR; SRV; TXT] of its published records, and a browser of that type holding exactly those "
+         "records reports the instance as added with the provider's type, name, SRV target, port and attributes. The end-to-end "
+         "statement itself is decided per run: simulated networks of 1..4 real provider stacks and 1..3 real browsers exchange packets "
+         "through the real toPacket/fromPacket with per-link delays, loop-back and duplication; after draining (and after the record "
+         "TTL following a silent disconnection) every browser's view must equal the services offered by the live providers of its type.",
+         "DESIGN.md section 4 (C04)", "Rocq proof of the single hop (announcement -> report) + simulated networks of the real stacks judged against the script's ground truth"),
+ "C09": ("Theorem C09_hostname_defence_round (Properties_C09.v): for every interface table and local source, a registered hostname object "
+         "answers a newcomer's A+AAAA probe for its name and that reply moves the unregistered newcomer to a later candidate; "
+         "C09_service_names_refuted: the service-name half is false of the faithful model (a confirmed provider is silent on the "
+         "prober's ANY question) - witness by computation. Per run: networks of 2..5 real participants wanting the same host name and "
+         "instance name, started one after another with link delays up to 900 ms; registered host names and served instance names must "
+         "be pairwise distinct. Two open known findings are reported as KNOWN-FINDING (service names undefended; hostname undefended "
+         "during its own periodic re-probe).",
+         "DESIGN.md section 4 (C09)", "Rocq proof of the defence round + refutation witness for service names + simulated networks of the real stacks"),
  "C05": ("Theorems (Properties_C05.v) about the faithful model of cache.cpp: invariant of every reachable cache; closed form of an exact "
          "advance (each entry keeps exactly its triggers later than t, independently of all other entries); exactly one expiry "
          "notification at exactly add-time + TTL s; lookup = filter over stored entries. Tie: constants and the match/lookup "
